@@ -42,6 +42,18 @@ CLAIMS = {
             "The C03/C10 pipelines, optionally cut anywhere and optionally under a required password, are served with a tracer double whose span contexts are go-tracing's own stack implementation; every span must be finished exactly once, nested in its parent, roots and siblings must not overlap, and every write/handler call must lie in exactly one root with at most one reply per root.",
             "The tracer double stands for any tracer built on go-tracing's common span-context stack (as the bundled OpenTelemetry/OpenTracing adapters are).",
             "DESIGN.md 4/C20"),
+    "C12": ("model-based property testing (rapid) + exhaustive index tables: command programs against a reference store used as handler, oracle = executable Redis model (replies and final store state)",
+            "The handler is a reference store whose primitives behave like Redis; the framework derives the commands of the property from them. GETRANGE/SUBSTR, ZREVRANGE and ZREVRANGEBYSCORE index/bound tables are enumerated completely inside the stated bounds, random programs mix setup and derived commands; every reply and the final store contents must equal an independent command-level Redis model.",
+            "The model (internal/model) is written from the Redis documentation; integer forms Redis rejects but strconv accepts ('+5','007') are treated as integers (contested, not asserted); CONFIG GET of never-set parameters may be absent or empty.",
+            "DESIGN.md 4/C12"),
+    "C18": ("model-based property testing (rapid) + bounded-exhaustive program enumeration per data type against the bundled example store, oracle = executable Redis model",
+            "All programs of length <=3 over ~20 concrete commands per data type are enumerated, and random programs up to 40 commands revisit a small pool of keys, members and binary values; after each program KEYS *, TYPE/EXISTS and a full read of every pool key are appended. Every reply must equal the model's under stated comparison rules (unordered replies as multisets, score ties permutable).",
+            "Each key is used with one data type, no expiry, ZADD without flags, LPOP/RPOP without count or with count>=2 (the handler interface cannot tell 'LPOP k' from 'LPOP k 1'), finite scores.",
+            "DESIGN.md 4/C18"),
+    "C17": ("complete enumeration over a 9-symbol alphabet + property-based testing (rapid) of longer patterns, oracle = direct recursive glob matcher; differential KEYS vs SCAN MATCH at server level",
+            "Every pattern up to length 3 (thorough: 5) is compiled and matched against every key up to length 4 (thorough: 5) over {a,b,*,?,.,+,(,|,$} and compared with a reference matcher; longer random patterns add ) ^ { } space newline and non-ASCII; a populated example store must answer KEYS with exactly the reference-selected keys and SCAN MATCH with the same set.",
+            "'[', ']' and backslash are not generated (Redis glob syntax the property does not mention); '?' is compared as one character (rune).",
+            "DESIGN.md 4/C17"),
 }
 
 PENDING = {
